@@ -61,7 +61,10 @@ func c12GenX(t *rapid.T, name string) float64 {
 	case 5, 6:
 		return s * c12Pow10(rapid.Float64Range(-3, 6).Draw(t, name+"_log"))
 	case 7:
-		return s * c12Pow10(-rapid.Float64Range(3, 320).Draw(t, name+"_tiny"))
+		if rapid.Bool().Draw(t, name+"_small") {
+			return s * c12Pow10(-rapid.Float64Range(2, 12).Draw(t, name+"_small_e"))
+		}
+		return s * c12Pow10(-rapid.Float64Range(12, 320).Draw(t, name+"_tiny"))
 	case 8:
 		return s * c12Pow10(rapid.Float64Range(6, 308).Draw(t, name+"_huge"))
 	default:
@@ -300,7 +303,7 @@ func c12CheckDist(c c12DistCase) (v vcase.Verdict) {
 			}
 			// The normal argument z = (x−μ)/σ carries two roundings; their
 			// effect on Φ is ≤ φ(z)|z|·2ε < 1e-16.
-			if d := math.Abs(p.f - ref); d > 1e-9 {
+			if d := math.Abs(p.f - ref); d > 1e-9 && !(c.Kind == "t" && c12TAgree(&v, c.V, p.x, p.f, ref, 1e-9)) {
 				v.Failf("%s %+v: CDF(%v) = %.17g but the integral of the textbook density is %.17g (diff %g)", c.Kind, dist, p.x, p.f, ref, d)
 				return
 			}
@@ -328,7 +331,7 @@ func c12CheckDist(c c12DistCase) (v vcase.Verdict) {
 				if c.Kind == "normal" {
 					tol += 4 * c12Ulp(math.Abs(c.Mu)+math.Abs(z)*c.Sigma) / c.Sigma
 				}
-				if d := math.Abs(p.f - own); d > tol {
+				if d := math.Abs(p.f - own); d > tol && !(c.Kind == "t" && c12TAgree(&v, c.V, p.x, p.f, own, tol)) {
 					v.Failf("%s %+v: CDF(%v) = %.17g but the integral of PDF is %.17g (diff %g)", c.Kind, dist, p.x, p.f, own, d)
 					return
 				}
@@ -336,7 +339,7 @@ func c12CheckDist(c c12DistCase) (v vcase.Verdict) {
 			if c.Kind == "t" && c.V > 200 {
 				phi, ok := refstat.NormCDF(z)
 				lim, bound := refstat.TCDFNormalLimit(c.V, z, phi)
-				if ok && math.Abs(p.f-lim) > bound+1e-9 {
+				if ok && !c12TAgree(&v, c.V, p.x, p.f, lim, bound+1e-9) {
 					v.Failf("t %+v: CDF(%v) = %.17g is not within %g of the normal limit %.17g", dist, p.x, p.f, bound, lim)
 					return
 				}
@@ -399,6 +402,16 @@ func c12CheckDist(c c12DistCase) (v vcase.Verdict) {
 				tol += 0.4 * c12Ulp(x) / c.Sigma
 			}
 			if d := math.Abs(back - p); !(d <= tol) {
+				// Finding C12-a: the inverse is exact for the implemented
+				// (staircase) CDF — x is the smallest float with CDF(x) ≥ p —
+				// and the stair at x is the one the finding predicts.
+				if c.Kind == "t" && vcase.KnownListed("C12-a") && c12Finite(x) &&
+					back >= p && dist.CDF(math.Nextafter(x, math.Inf(-1))) < p {
+					if m, ok := c12StairModel(c.V, x); ok && math.Abs(back-m) <= 1e-9 {
+						v.KnownHit("C12-a")
+						continue
+					}
+				}
 				v.Failf("%s %+v: %s inverse: CDF(InvCDF(%v)) = CDF(%v) = %v (off by %g, tolerance %g)", c.Kind, dist, iv.name, p, x, back, d, tol)
 				return
 			}
